@@ -327,6 +327,12 @@ def aliasPrice (p : Params) (l : AliasId) : Nat := elemOrLast p.aliasSteps (alia
 
 def yearSeconds : Nat := 86400 * 365
 
+/-- divisor of the minimum bid increment: `highestBid.MulRaw(percent).QuoRaw(100)` -/
+def bidIncDivisor : Nat := 100
+
+/-- buy-order id prefixes (`BuyOrderIdTypeDymNamePrefix` / `BuyOrderIdTypeAliasPrefix`) -/
+def orderPrefix (isAlias : Bool) : String := if isAlias then "20" else "10"
+
 /-! ## name messages -/
 
 /-- what `RegisterName` is going to write: the record, the price, and whether the previous record
@@ -560,7 +566,7 @@ def validatePurchase (s : State) (so : SellOrder) (offer : Nat) : M Unit := do
   | some b =>
     chk (decide (b.price < offer)) .invalid
     if s.p.bidInc > 0 then
-      let inc := b.price * s.p.bidInc / 100
+      let inc := b.price * s.p.bidInc / bidIncDivisor
       if inc > 0 then
         let want := b.price + inc
         if so.sellPrice ≠ 0 ∧ so.sellPrice < want then pure ()
